@@ -2,6 +2,7 @@
     the conversion spec (Sys/SysSpec.v). *)
 From Coq Require Import NArith ZArith List Bool Lia.
 From KdV Require Import Base.Wrap64 Map.MapModel Sys.ChainInterp Sys.SysSpec.
+From KdV Require Xlat.Step Hist.ReadCache Hist.ReadCacheProofs.
 Import ListNotations.
 Local Open Scope N_scope.
 
@@ -92,7 +93,7 @@ Proof.
     vm_compute; tauto.
 Qed.
 
-(** * The interpreter computes compositions (soundness w.r.t. [conv]) *)
+(** * The interpreter computes compositions (soundness w.r.t. [convB]) *)
 
 Lemma lookup_find_spec tbl endoff addr orig dest :
   lookup_find tbl endoff addr = Some (orig, dest) ->
@@ -108,36 +109,58 @@ Proof.
   - intros H. destruct (IH H) as [H1 H2]. split; [now right|assumption].
 Qed.
 
+Lemma path_mono s fmt_first fmt_next fmt_ptesz wf rd caps len a b :
+  path s fmt_first fmt_next fmt_ptesz wf rd caps len a b ->
+  forall len', (len <= len')%nat -> path s fmt_first fmt_next fmt_ptesz wf rd caps len' a b.
+Proof.
+  induction 1 as [len a Hc|len a c b Hn Hs Hp IH]; intros len' Hle.
+  - now constructor.
+  - destruct len' as [|l']; [lia|]. eapply path_step; try eassumption. apply IH. lia.
+Qed.
+
 Section Sound.
   Variable s : sys.
   Variable rcaps : N.
-  Variable mem : Z -> N -> N -> Z * N.
+  Variable mem : Z -> N -> N -> option (Z * N).
+  Variable fmt_first : Step.aspace -> N -> Step.pform -> N -> Step.status * Step.step.
+  Variable fmt_next : Step.aspace -> N -> Step.pform -> Step.step -> N -> Step.status * Step.step.
+  Variable fmt_ptesz : Step.pform -> option N.
+  Variable wfuel : nat.
   Variable nested : list key -> fulladdr -> cres.
-  Hypothesis nested_sound : forall infl fa x,
-    nested infl fa = Call x -> conv s rcaps mem rcaps fa x.
+  (** what nested conversions are known to compute *)
+  Variable C : fulladdr -> fulladdr -> Prop.
+  Hypothesis nested_sound : forall infl fa x, nested infl fa = Call x -> C fa x.
+  Hypothesis C_refl : forall fa, in_caps rcaps (fa_as fa) -> C fa fa.
+
+  Definition rdC (fa : fulladdr) (sz v : N) : Prop :=
+    exists fa', C fa fa' /\ mem (fa_as fa') (fa_addr fa') sz = Some (ST_OK, v).
+
+  Notation xlatC := (xlat fmt_first fmt_next fmt_ptesz wfuel rdC).
+  Notation step1C := (step1 s fmt_first fmt_next fmt_ptesz wfuel rdC).
+  Notation pathC := (path s fmt_first fmt_next fmt_ptesz wfuel rdC).
 
   Lemma do_read_sound fa sz v :
-    do_read mem fa sz = RVal v -> mem (fa_as fa) (fa_addr fa) sz = (ST_OK, v).
+    do_read mem fa sz = RVal v -> mem (fa_as fa) (fa_addr fa) sz = Some (ST_OK, v).
   Proof.
-    unfold do_read. destruct (mem (fa_as fa) (fa_addr fa) sz) as [st v'].
+    unfold do_read. destruct (mem (fa_as fa) (fa_addr fa) sz) as [[st v']|]; [|discriminate].
     destruct (st =? ST_OK)%Z eqn:E; [|discriminate].
     intros [= ->]. apply Z.eqb_eq in E. now subst.
   Qed.
 
   Lemma read_sound infl fa sz v :
-    read rcaps mem nested infl fa sz = RVal v -> rdval s rcaps mem fa sz v.
+    read rcaps mem nested infl fa sz = RVal v -> rdC fa sz v.
   Proof.
     unfold read. destruct (caps_has rcaps (fa_as fa)) as [[|]|] eqn:Ec; [| |discriminate].
     - intros H. apply do_read_sound in H.
-      eapply rdval_intro; [|exact H]. apply conv_done. now apply caps_has_true.
+      exists fa. split; [apply C_refl; now apply caps_has_true|exact H].
     - destruct (nested infl fa) as [x|st| |] eqn:En; try discriminate.
       intros H. apply do_read_sound in H.
-      eapply rdval_intro; [|exact H]. eapply nested_sound; eassumption.
+      exists x. split; [eapply nested_sound; eassumption|exact H].
   Qed.
 
   Lemma pgt_levels_sound infl tas pte64 mask sh0 idxs : forall base b,
     pgt_levels rcaps mem nested infl tas pte64 mask sh0 idxs base = WOk b ->
-    tables s rcaps mem tas pte64 mask sh0 idxs base b.
+    tables rdC tas pte64 mask sh0 idxs base b.
   Proof.
     induction idxs as [|i tl IH]; intros base b; cbn [pgt_levels].
     - intros [= ->]. constructor.
@@ -148,10 +171,52 @@ Section Sound.
       eapply tables_cons; [eapply read_sound; exact Er|exact Ez|now apply IH].
   Qed.
 
-  Lemma walk_sound infl m addr b :
-    walk rcaps mem nested infl m addr = WOk b -> xlat s rcaps mem m addr b.
+  Lemma st_of_ok st : st_of st = Some ST_OK -> st = Step.OK.
   Proof.
-    destruct m as [| |f|tas off|tas root pte64 mask fields|tas endoff tbl|tas base shift elemsz valsz];
+    destruct st; cbn; intro H; try discriminate; auto.
+    destruct (code =? ST_OK)%Z eqn:E; [discriminate|].
+    injection H as H. apply Z.eqb_neq in E. contradiction.
+  Qed.
+
+  Lemma fwalk_loop_sound infl tgt mask pf : forall wf st b,
+    fwalk_loop rcaps mem fmt_next fmt_ptesz nested wf infl tgt mask pf st = WOk b ->
+    fwalk fmt_next fmt_ptesz rdC tgt mask pf wf st b.
+  Proof.
+    induction wf as [|wf IH]; intros st b; cbn [fwalk_loop]; [discriminate|].
+    destruct (Step.s_remain st) as [|r] eqn:Er; [discriminate|].
+    destruct (Step.advance st r) as [s1|] eqn:Ea; [|discriminate].
+    destruct r as [|r'].
+    - intros [= <-]. eapply fwalk_last; eassumption.
+    - assert (Hcont : forall raw,
+        match fmt_ptesz pf with
+        | Some sz => rdC (FA (Step.s_base s1) (as_of (Step.s_as s1))) sz raw
+        | None => raw = 0
+        end ->
+        (let '(st0, s2) := fmt_next tgt mask pf s1 raw in
+         match st_of st0 with
+         | Some e => if (e =? ST_OK)%Z
+                     then fwalk_loop rcaps mem fmt_next fmt_ptesz nested wf infl tgt mask pf s2
+                     else WErr e
+         | None => WUB
+         end) = WOk b ->
+        fwalk fmt_next fmt_ptesz rdC tgt mask pf (S wf) st b).
+      { intros raw Hraw. destruct (fmt_next tgt mask pf s1 raw) as [st0 s2] eqn:En.
+        destruct (st_of st0) as [e|] eqn:Es; [|discriminate].
+        destruct (e =? ST_OK)%Z eqn:Ee; [|discriminate].
+        apply Z.eqb_eq in Ee. subst e. intros H.
+        assert (st0 = Step.OK) by (now apply st_of_ok). subst st0.
+        eapply fwalk_level; try eassumption. now apply IH. }
+      destruct (fmt_ptesz pf) as [sz|] eqn:Ep.
+      + destruct (read rcaps mem nested infl _ sz) as [raw|e| |] eqn:Erd; try discriminate.
+        apply Hcont. eapply read_sound; exact Erd.
+      + apply Hcont. reflexivity.
+  Qed.
+
+  Lemma walk_sound infl m addr b :
+    walk rcaps mem fmt_first fmt_next fmt_ptesz wfuel nested infl m addr = WOk b -> xlatC m addr b.
+  Proof.
+    destruct m as [| |f|tas off|tas root pte64 mask fields|tgt ras root mask pf|tas endoff tbl
+                   |tas base shift elemsz valsz];
       cbn [walk]; try discriminate.
     - destruct (f addr) as [st fa] eqn:Ef. destruct (st =? ST_OK)%Z eqn:E; [|discriminate].
       intros [= ->]. apply Z.eqb_eq in E. subst st. now constructor.
@@ -163,13 +228,23 @@ Section Sound.
       apply N.eqb_eq in Et. subst top. apply Z.eqb_neq in En.
       destruct idx as [|i0 upper].
       + intros [= <-].
-        exact (xlat_pgt s rcaps mem tas root pte64 mask fields addr [] root En Es
-                        (tables_nil _ _ _ _ _ _ _ _)).
+        exact (xlat_pgt fmt_first fmt_next fmt_ptesz wfuel rdC tas root pte64 mask fields addr [] root
+                        En Es (tables_nil rdC _ _ _ _ _)).
       + destruct (pgt_levels rcaps mem nested infl tas pte64 mask (hd 0 fields) (rev upper) root)
           as [b'|st| |] eqn:Ep; try discriminate.
         intros [= <-]. rewrite xadd_wadd.
         apply pgt_levels_sound in Ep.
-        exact (xlat_pgt s rcaps mem tas root pte64 mask fields addr (i0 :: upper) b' En Es Ep).
+        exact (xlat_pgt fmt_first fmt_next fmt_ptesz wfuel rdC tas root pte64 mask fields addr
+                        (i0 :: upper) b' En Es Ep).
+    - destruct (fmt_first ras root pf addr) as [st0 st] eqn:Ef.
+      destruct (st_of st0) as [e|] eqn:Es; [|discriminate].
+      destruct (e =? ST_OK)%Z eqn:Ee; cbn [negb]; [|discriminate].
+      apply Z.eqb_eq in Ee. subst e.
+      assert (st0 = Step.OK) by (now apply st_of_ok). subst st0.
+      destruct (Step.s_remain st) as [|r] eqn:Er.
+      + intros [= <-]. now apply xlat_pgtf_done.
+      + intros H. apply fwalk_loop_sound in H.
+        eapply xlat_pgtf_walk; [exact Ef|rewrite Er; discriminate|exact H].
     - destruct (lookup_find tbl endoff addr) as [[orig dest]|] eqn:El; [|discriminate].
       intros [= <-]. rewrite xadd_wadd, xsub_wsub.
       destruct (lookup_find_spec _ _ _ _ _ El) as [H1 [H2 H3]].
@@ -185,9 +260,9 @@ Section Sound.
 
   Lemma do_alts_sound infl caps alts : forall pa,
     Forall (fun i => In i ALL_MAPS) alts ->
-    match do_alts rcaps mem nested s infl caps alts pa with
-    | AReturn (Call b) => step1 s rcaps mem pa b /\ in_caps caps (fa_as b)
-    | ABreak pa' => step1 s rcaps mem pa pa'
+    match do_alts rcaps mem fmt_first fmt_next fmt_ptesz wfuel nested s infl caps alts pa with
+    | AReturn (Call b) => step1C pa b /\ in_caps caps (fa_as b)
+    | ABreak pa' => step1C pa pa' /\ caps_has caps (fa_as pa') = Some false
     | _ => True
     end.
   Proof.
@@ -199,63 +274,68 @@ Section Sound.
     destruct (xmap_search mp (fa_addr pa) =? NONE)%Z eqn:En; [now apply IH|].
     destruct (get_meth s (xmap_search mp (fa_addr pa))) as [m|] eqn:Em; [|exact I].
     rewrite xmap_search_eq in Em.
-    assert (Hstep : forall b, xlat s rcaps mem m (fa_addr pa) b -> step1 s rcaps mem pa b).
+    assert (Hstep : forall b, xlatC m (fa_addr pa) b -> step1C pa b).
     { intros b Hx. eapply step1_map; eassumption. }
-    assert (Hwalk : match walk rcaps mem nested infl m (fa_addr pa) with
-                    | WOk b =>
-                        match caps_has caps (fa_as b) with
-                        | Some true => AReturn (Call b)
-                        | Some false => ABreak b
-                        | None => AReturn UB
-                        end
-                    | WErr st =>
-                        if ((st =? ST_NOMETH)%Z || (st =? ST_NODATA)%Z)%bool
-                        then do_alts rcaps mem nested s infl caps rest pa
-                        else AReturn (Err st)
-                    | WFuel => AReturn OutOfFuel
-                    | WUB => AReturn UB
-                    end = do_alts rcaps mem nested s infl caps (mapidx :: rest) pa ->
-            match do_alts rcaps mem nested s infl caps (mapidx :: rest) pa with
-            | AReturn (Call b) => step1 s rcaps mem pa b /\ in_caps caps (fa_as b)
-            | ABreak pa' => step1 s rcaps mem pa pa'
-            | _ => True
-            end).
-    { intros <-.
-      destruct (walk rcaps mem nested infl m (fa_addr pa)) as [b|st| |] eqn:Ew; try exact I.
+    assert (Hwalk :
+      match (match walk rcaps mem fmt_first fmt_next fmt_ptesz wfuel nested infl m (fa_addr pa) with
+             | WOk b =>
+                 match caps_has caps (fa_as b) with
+                 | Some true => AReturn (Call b)
+                 | Some false => ABreak b
+                 | None => AReturn UB
+                 end
+             | WErr st =>
+                 if ((st =? ST_NOMETH)%Z || (st =? ST_NODATA)%Z)%bool
+                 then do_alts rcaps mem fmt_first fmt_next fmt_ptesz wfuel nested s infl caps rest pa
+                 else AReturn (Err st)
+             | WFuel => AReturn OutOfFuel
+             | WUB => AReturn UB
+             end) with
+      | AReturn (Call b) => step1C pa b /\ in_caps caps (fa_as b)
+      | ABreak pa' => step1C pa pa' /\ caps_has caps (fa_as pa') = Some false
+      | _ => True
+      end).
+    { destruct (walk rcaps mem fmt_first fmt_next fmt_ptesz wfuel nested infl m (fa_addr pa))
+        as [b|st| |] eqn:Ew; try exact I.
       - apply walk_sound in Ew.
         destruct (caps_has caps (fa_as b)) as [[|]|] eqn:Ec; try exact I.
         + split; [now apply Hstep|now apply caps_has_true].
-        + now apply Hstep.
+        + split; [now apply Hstep|exact Ec].
       - destruct ((st =? ST_NOMETH)%Z || (st =? ST_NODATA)%Z)%bool; [now apply IH|exact I]. }
-    cbn [do_alts] in Hwalk. rewrite Eas, Z.eqb_refl in Hwalk. cbn [negb] in Hwalk.
-    rewrite Emp, En in Hwalk. rewrite <- xmap_search_eq in Em. rewrite Em in Hwalk.
-    rewrite xmap_search_eq in Em.
-    destruct m as [| |f|tas off|tas root pte64 mask fields|tas endoff tbl|tas base shift elemsz valsz];
-      try (apply Hwalk; reflexivity).
+    destruct m as [| |f|tas off|tas root pte64 mask fields|tgt ras root mask pf|tas endoff tbl
+                   |tas base shift elemsz valsz]; try exact Hwalk.
     (* the LINEAR shortcut *)
-    assert (Hx : xlat s rcaps mem (MLinear tas off) (fa_addr pa) (FA (xadd (fa_addr pa) off) tas)).
+    assert (Hx : xlatC (MLinear tas off) (fa_addr pa) (FA (xadd (fa_addr pa) off) tas)).
     { rewrite xadd_wadd. constructor. }
     destruct (caps_has caps tas) as [[|]|] eqn:Ec; try exact I.
     - split; [now apply Hstep|now apply caps_has_true].
-    - now apply Hstep.
+    - split; [now apply Hstep|exact Ec].
   Qed.
+
+  Lemma caps_has_false_not caps a : caps_has caps a = Some false -> ~ in_caps caps a.
+  Proof. intros H Hc. apply caps_has_true in Hc. congruence. Qed.
 
   Lemma do_chain_sound infl caps ch : forall pa b,
     Forall (fun alts => Forall (fun i => In i ALL_MAPS) alts) ch ->
-    do_chain rcaps mem nested s infl caps ch pa = Call b ->
-    conv s rcaps mem caps pa b.
+    caps_has caps (fa_as pa) = Some false ->
+    do_chain rcaps mem fmt_first fmt_next fmt_ptesz wfuel nested s infl caps ch pa = Call b ->
+    pathC caps (length ch) pa b.
   Proof.
-    induction ch as [|alts rest IH]; intros pa b Hall; cbn [do_chain]; [discriminate|].
+    induction ch as [|alts rest IH]; intros pa b Hall Hpa; cbn [do_chain]; [discriminate|].
     inversion Hall as [|? ? Ha Hrest]; subst.
     pose proof (do_alts_sound infl caps alts pa Ha) as Hs.
-    destruct (do_alts rcaps mem nested s infl caps alts pa) as [r|pa'|].
-    - intros ->. destruct Hs as [Hs Hc]. eapply conv_step; [exact Hs|now apply conv_done].
-    - intros H. eapply conv_step; [exact Hs|now apply IH].
-    - now apply IH.
+    destruct (do_alts rcaps mem fmt_first fmt_next fmt_ptesz wfuel nested s infl caps alts pa)
+      as [r|pa'|].
+    - intros ->. destruct Hs as [Hs Hc]. cbn [length].
+      eapply path_step; [now apply caps_has_false_not|exact Hs|now apply path_done].
+    - intros H. destruct Hs as [Hs Hc]. cbn [length].
+      eapply path_step; [now apply caps_has_false_not|exact Hs|now apply IH].
+    - intros H. cbn [length]. eapply path_mono; [apply IH; eassumption|lia].
   Qed.
 End Sound.
 
-(** ** [op_core]: success is a composition that ends in a usable space *)
+(** ** [op_core]: success is a conversion of read-nesting depth at most the
+    fuel and of at most two methods in a row, ending in a usable space *)
 
 Lemma op_pre_call lim osys infl caps a b :
   op_pre lim osys infl caps a = inl (Call b) -> b = a /\ in_caps caps (fa_as a).
@@ -287,23 +367,62 @@ Proof.
   intros Hin. apply existsb_key in Hin. congruence.
 Qed.
 
-Theorem op_core_sound lim s rcaps mem : forall fuel infl caps a b,
-  op_core lim (Some s) rcaps mem fuel infl caps a = Call b ->
-  conv s rcaps mem caps a b.
-Proof.
-  induction fuel as [|f IH]; intros infl caps a b; cbn [op_core]; unfold op_body.
-  - destruct (op_pre lim (Some s) infl caps a) as [r|] eqn:Ep; [|discriminate].
-    intros ->. apply op_pre_call in Ep. destruct Ep as [-> Hc]. now apply conv_done.
-  - destruct (op_pre lim (Some s) infl caps a) as [r|[[s' k] c]] eqn:Ep.
-    + intros ->. apply op_pre_call in Ep. destruct Ep as [-> Hc]. now apply conv_done.
-    + apply op_pre_inr in Ep. destruct Ep as [[= <-] _].
-      apply do_chain_sound; [|apply chain_tbl_maps].
-      intros i fa x. apply IH.
-Qed.
+Lemma chain_tbl_len c : (length (chain_tbl c) <= 2)%nat.
+Proof. destruct c; cbn; lia. Qed.
+
+Section OpSound.
+  Variable lim : option nat.
+  Variable s : sys.
+  Variable rcaps : N.
+  Variable mem : Z -> N -> N -> option (Z * N).
+  Variable fmt_first : Step.aspace -> N -> Step.pform -> N -> Step.status * Step.step.
+  Variable fmt_next : Step.aspace -> N -> Step.pform -> Step.step -> N -> Step.status * Step.step.
+  Variable fmt_ptesz : Step.pform -> option N.
+  Variable wfuel : nat.
+
+  Notation convB' := (convB s rcaps mem fmt_first fmt_next fmt_ptesz wfuel).
+  Notation op_core' := (op_core lim (Some s) rcaps mem fmt_first fmt_next fmt_ptesz wfuel).
+
+  Lemma convB_refl d len caps a : in_caps caps (fa_as a) -> convB' d len caps a a.
+  Proof.
+    intros H. destruct d; cbn [convB]; [now split|now apply path_done].
+  Qed.
+
+  Theorem op_core_sound : forall fuel infl caps a b,
+    op_core' fuel infl caps a = Call b -> convB' fuel 2 caps a b.
+  Proof.
+    induction fuel as [|f IH]; intros infl caps a b; cbn [op_core]; unfold op_body.
+    - destruct (op_pre lim (Some s) infl caps a) as [r|] eqn:Ep; [|discriminate].
+      intros ->. apply op_pre_call in Ep. destruct Ep as [-> Hc]. now split.
+    - destruct (op_pre lim (Some s) infl caps a) as [r|[[s' k] c]] eqn:Ep.
+      + intros ->. apply op_pre_call in Ep. destruct Ep as [-> Hc]. now apply convB_refl.
+      + apply op_pre_inr in Ep. destruct Ep as [[= <-] [_ [Hcf _]]].
+        intros H. cbn [convB].
+        eapply path_mono; [|apply (chain_tbl_len c)].
+        assert (Hn : forall i fa x, op_core' f i rcaps fa = Call x -> convB' f 2 rcaps fa x)
+          by (intros i fa x Hx; exact (IH i rcaps fa x Hx)).
+        assert (Hr : forall fa, in_caps rcaps (fa_as fa) -> convB' f 2 rcaps fa fa)
+          by (intros; now apply convB_refl).
+        exact (do_chain_sound s rcaps mem fmt_first fmt_next fmt_ptesz wfuel
+                 (fun i a0 => op_core' f i rcaps a0) (convB' f 2 rcaps) Hn Hr (k :: infl) caps (chain_tbl c) a b
+                 (chain_tbl_maps c) Hcf H).
+  Qed.
+
+  Corollary op_core_conv fuel infl caps a b :
+    op_core' fuel infl caps a = Call b -> conv s rcaps mem fmt_first fmt_next fmt_ptesz wfuel caps a b.
+  Proof. intros H. exists fuel, 2%nat. eapply op_core_sound; exact H. Qed.
+End OpSound.
+
+(** * Everything else holds for any page-table format *)
+Section AnyFormat.
+  Variable fmt_first : Step.aspace -> N -> Step.pform -> N -> Step.status * Step.step.
+  Variable fmt_next : Step.aspace -> N -> Step.pform -> Step.step -> N -> Step.status * Step.step.
+  Variable fmt_ptesz : Step.pform -> option N.
+  Variable wfuel : nat.
 
 (** without a translation system only pass-through succeeds *)
 Lemma op_core_nosys lim rcaps mem fuel infl caps a b :
-  op_core lim None rcaps mem fuel infl caps a = Call b -> b = a /\ in_caps caps (fa_as a).
+  op_core lim None rcaps mem fmt_first fmt_next fmt_ptesz wfuel fuel infl caps a = Call b -> b = a /\ in_caps caps (fa_as a).
 Proof.
   destruct fuel; cbn [op_core]; unfold op_body;
     destruct (op_pre lim None infl caps a) as [r|[[s' k] c]] eqn:Ep;
@@ -314,7 +433,7 @@ Qed.
 
 (** the result lies in a usable address space, whatever serves nested calls *)
 Lemma do_alts_caps rcaps mem nested s infl caps alts : forall pa b,
-  do_alts rcaps mem nested s infl caps alts pa = AReturn (Call b) -> in_caps caps (fa_as b).
+  do_alts rcaps mem fmt_first fmt_next fmt_ptesz wfuel nested s infl caps alts pa = AReturn (Call b) -> in_caps caps (fa_as b).
 Proof.
   induction alts as [|mapidx rest IH]; intros pa b; cbn [do_alts]; [discriminate|].
   destruct (negb _); [apply IH|].
@@ -322,15 +441,15 @@ Proof.
   destruct (_ =? NONE)%Z; [apply IH|].
   destruct (get_meth s _) as [m|]; [|discriminate].
   assert (Hw : forall b,
-    match walk rcaps mem nested infl m (fa_addr pa) with
+    match walk rcaps mem fmt_first fmt_next fmt_ptesz wfuel nested infl m (fa_addr pa) with
     | WOk b0 => match caps_has caps (fa_as b0) with
                 | Some true => AReturn (Call b0) | Some false => ABreak b0 | None => AReturn UB end
     | WErr st => if ((st =? ST_NOMETH)%Z || (st =? ST_NODATA)%Z)%bool
-                 then do_alts rcaps mem nested s infl caps rest pa else AReturn (Err st)
+                 then do_alts rcaps mem fmt_first fmt_next fmt_ptesz wfuel nested s infl caps rest pa else AReturn (Err st)
     | WFuel => AReturn OutOfFuel
     | WUB => AReturn UB
     end = AReturn (Call b) -> in_caps caps (fa_as b)).
-  { intros b0. destruct (walk rcaps mem nested infl m (fa_addr pa)) as [b1|st| |]; try discriminate.
+  { intros b0. destruct (walk rcaps mem fmt_first fmt_next fmt_ptesz wfuel nested infl m (fa_addr pa)) as [b1|st| |]; try discriminate.
     - destruct (caps_has caps (fa_as b1)) as [[|]|] eqn:Ec; try discriminate.
       intros [= <-]. now apply caps_has_true.
     - destruct (_ || _)%bool; [apply IH|discriminate]. }
@@ -340,17 +459,17 @@ Proof.
 Qed.
 
 Lemma do_chain_caps rcaps mem nested s infl caps ch : forall pa b,
-  do_chain rcaps mem nested s infl caps ch pa = Call b -> in_caps caps (fa_as b).
+  do_chain rcaps mem fmt_first fmt_next fmt_ptesz wfuel nested s infl caps ch pa = Call b -> in_caps caps (fa_as b).
 Proof.
   induction ch as [|alts rest IH]; intros pa b; cbn [do_chain]; [discriminate|].
-  destruct (do_alts rcaps mem nested s infl caps alts pa) as [r|pa'|] eqn:Ea.
+  destruct (do_alts rcaps mem fmt_first fmt_next fmt_ptesz wfuel nested s infl caps alts pa) as [r|pa'|] eqn:Ea.
   - intros ->. eapply do_alts_caps; exact Ea.
   - apply IH.
   - apply IH.
 Qed.
 
 Theorem op_core_in_caps lim osys rcaps mem fuel infl caps a b :
-  op_core lim osys rcaps mem fuel infl caps a = Call b -> in_caps caps (fa_as b).
+  op_core lim osys rcaps mem fmt_first fmt_next fmt_ptesz wfuel fuel infl caps a = Call b -> in_caps caps (fa_as b).
 Proof.
   destruct fuel; cbn [op_core]; unfold op_body;
     destruct (op_pre lim osys infl caps a) as [r|[[s' k] c]] eqn:Ep; try discriminate.
@@ -361,7 +480,7 @@ Qed.
 
 (** ** Pass-through *)
 Theorem op_core_passthrough lim osys rcaps mem fuel infl caps a :
-  in_caps caps (fa_as a) -> op_core lim osys rcaps mem fuel infl caps a = Call a.
+  in_caps caps (fa_as a) -> op_core lim osys rcaps mem fmt_first fmt_next fmt_ptesz wfuel fuel infl caps a = Call a.
 Proof.
   intros H. apply caps_has_true in H.
   destruct fuel; cbn [op_core]; unfold op_body, op_pre; rewrite H; reflexivity.
@@ -370,7 +489,7 @@ Qed.
 (** ** A failure always carries a non-zero status *)
 Section ErrNonzero.
   Variable rcaps : N.
-  Variable mem : Z -> N -> N -> Z * N.
+  Variable mem : Z -> N -> N -> option (Z * N).
   Variable nested : list key -> fulladdr -> cres.
   Hypothesis nested_err : forall infl fa st, nested infl fa = Err st -> st <> ST_OK.
 
@@ -379,10 +498,12 @@ Section ErrNonzero.
   Proof.
     unfold read, do_read.
     destruct (caps_has rcaps (fa_as fa)) as [[|]|]; [| |discriminate].
-    - destruct (mem _ _ _) as [st' v]. destruct (st' =? ST_OK)%Z eqn:E; [discriminate|].
+    - destruct (mem _ _ _) as [[st' v]|]; [|discriminate].
+      destruct (st' =? ST_OK)%Z eqn:E; [discriminate|].
       intros [= <-]. now apply Z.eqb_neq.
     - destruct (nested infl fa) as [x|st'| |] eqn:En; try discriminate.
-      + destruct (mem _ _ _) as [st' v]. destruct (st' =? ST_OK)%Z eqn:E; [discriminate|].
+      + destruct (mem _ _ _) as [[st' v]|]; [|discriminate].
+        destruct (st' =? ST_OK)%Z eqn:E; [discriminate|].
         intros [= <-]. now apply Z.eqb_neq.
       + intros [= <-]. eapply nested_err; exact En.
   Qed.
@@ -396,21 +517,51 @@ Section ErrNonzero.
     - intros [= <-]. eapply read_err; exact Er.
   Qed.
 
-  Lemma walk_err infl m addr st :
-    walk rcaps mem nested infl m addr = WErr st -> st <> ST_OK.
+  Lemma fwalk_loop_err infl tgt mask pf : forall wf s st,
+    fwalk_loop rcaps mem fmt_next fmt_ptesz nested wf infl tgt mask pf s = WErr st -> st <> ST_OK.
   Proof.
-    destruct m as [| |f|tas off|tas root pte64 mask fields|tas endoff tbl|tas base shift elemsz valsz];
+    induction wf as [|wf IH]; intros s st; cbn [fwalk_loop]; [discriminate|].
+    destruct (Step.s_remain s) as [|r]; [discriminate|].
+    destruct (Step.advance s r) as [s1|]; [|discriminate].
+    destruct r as [|r']; [discriminate|].
+    assert (Hcont : forall raw,
+      (let '(st0, s2) := fmt_next tgt mask pf s1 raw in
+       match st_of st0 with
+       | Some e => if (e =? ST_OK)%Z
+                   then fwalk_loop rcaps mem fmt_next fmt_ptesz nested wf infl tgt mask pf s2
+                   else WErr e
+       | None => WUB
+       end) = WErr st -> st <> ST_OK).
+    { intros raw. destruct (fmt_next tgt mask pf s1 raw) as [st0 s2].
+      destruct (st_of st0) as [e|]; [|discriminate].
+      destruct (e =? ST_OK)%Z eqn:Ee; [apply IH|].
+      intros [= <-]. now apply Z.eqb_neq. }
+    destruct (fmt_ptesz pf) as [sz|]; [|apply Hcont].
+    destruct (read rcaps mem nested infl _ sz) as [raw|e| |] eqn:Erd; try discriminate.
+    - apply Hcont.
+    - intros [= <-]. eapply read_err; exact Erd.
+  Qed.
+
+  Lemma walk_err infl m addr st :
+    walk rcaps mem fmt_first fmt_next fmt_ptesz wfuel nested infl m addr = WErr st -> st <> ST_OK.
+  Proof.
+    destruct m as [| |f|tas off|tas root pte64 mask fields|tgt ras root mask pf|tas endoff tbl|tas base shift elemsz valsz];
       cbn [walk]; try discriminate; try (intros [= <-]; discriminate).
     - destruct (f addr) as [st' fa]. destruct (st' =? ST_OK)%Z eqn:E; [discriminate|].
       intros [= <-]. now apply Z.eqb_neq.
     - destruct (fa_as root =? AS_NOADDR)%Z; [intros [= <-]; discriminate|].
-      destruct (8 <? length fields)%nat; [discriminate|].
+      destruct (8 <? length fields)%nat; [intros [= <-]; discriminate|].
       destruct (split_fields fields addr) as [[idx top]|]; [|discriminate].
       destruct (negb (top =? 0)); [intros [= <-]; discriminate|].
       destruct idx as [|i0 upper]; [discriminate|].
       destruct (pgt_levels rcaps mem nested infl tas pte64 mask (hd 0 fields) (rev upper) root)
         as [b'|st'| |] eqn:Ep; try discriminate.
       intros [= <-]. eapply pgt_levels_err; exact Ep.
+    - destruct (fmt_first ras root pf addr) as [st0 s0].
+      destruct (st_of st0) as [e|]; [|discriminate].
+      destruct (e =? ST_OK)%Z eqn:Ee; cbn [negb].
+      + destruct (Step.s_remain s0); [discriminate|]. apply fwalk_loop_err.
+      + intros [= <-]. now apply Z.eqb_neq.
     - destruct (lookup_find tbl endoff addr) as [[orig dest]|]; [discriminate|].
       intros [= <-]; discriminate.
     - destruct (64 <=? shift); [discriminate|].
@@ -420,7 +571,7 @@ Section ErrNonzero.
   Qed.
 
   Lemma do_alts_err s infl caps alts : forall pa st,
-    do_alts rcaps mem nested s infl caps alts pa = AReturn (Err st) -> st <> ST_OK.
+    do_alts rcaps mem fmt_first fmt_next fmt_ptesz wfuel nested s infl caps alts pa = AReturn (Err st) -> st <> ST_OK.
   Proof.
     induction alts as [|mapidx rest IH]; intros pa st; cbn [do_alts]; [discriminate|].
     destruct (negb _); [apply IH|].
@@ -428,15 +579,15 @@ Section ErrNonzero.
     destruct (_ =? NONE)%Z; [apply IH|].
     destruct (get_meth s _) as [m|]; [|discriminate].
     assert (Hw :
-      match walk rcaps mem nested infl m (fa_addr pa) with
+      match walk rcaps mem fmt_first fmt_next fmt_ptesz wfuel nested infl m (fa_addr pa) with
       | WOk b0 => match caps_has caps (fa_as b0) with
                   | Some true => AReturn (Call b0) | Some false => ABreak b0 | None => AReturn UB end
       | WErr st => if ((st =? ST_NOMETH)%Z || (st =? ST_NODATA)%Z)%bool
-                   then do_alts rcaps mem nested s infl caps rest pa else AReturn (Err st)
+                   then do_alts rcaps mem fmt_first fmt_next fmt_ptesz wfuel nested s infl caps rest pa else AReturn (Err st)
       | WFuel => AReturn OutOfFuel
       | WUB => AReturn UB
       end = AReturn (Err st) -> st <> ST_OK).
-    { destruct (walk rcaps mem nested infl m (fa_addr pa)) as [b1|st'| |] eqn:Ew; try discriminate.
+    { destruct (walk rcaps mem fmt_first fmt_next fmt_ptesz wfuel nested infl m (fa_addr pa)) as [b1|st'| |] eqn:Ew; try discriminate.
       - destruct (caps_has caps (fa_as b1)) as [[|]|]; discriminate.
       - destruct (_ || _)%bool; [apply IH|]. intros [= <-]. eapply walk_err; exact Ew. }
     destruct m; try apply Hw.
@@ -444,11 +595,11 @@ Section ErrNonzero.
   Qed.
 
   Lemma do_chain_err s infl caps ch : forall pa st,
-    do_chain rcaps mem nested s infl caps ch pa = Err st -> st <> ST_OK.
+    do_chain rcaps mem fmt_first fmt_next fmt_ptesz wfuel nested s infl caps ch pa = Err st -> st <> ST_OK.
   Proof.
     induction ch as [|alts rest IH]; intros pa st; cbn [do_chain].
     - intros [= <-]; discriminate.
-    - destruct (do_alts rcaps mem nested s infl caps alts pa) as [r|pa'|] eqn:Ea.
+    - destruct (do_alts rcaps mem fmt_first fmt_next fmt_ptesz wfuel nested s infl caps alts pa) as [r|pa'|] eqn:Ea.
       + intros ->. eapply do_alts_err; exact Ea.
       + apply IH.
       + apply IH.
@@ -467,7 +618,7 @@ Proof.
 Qed.
 
 Theorem op_core_err_nonzero lim osys rcaps mem : forall fuel infl caps a st,
-  op_core lim osys rcaps mem fuel infl caps a = Err st -> st <> ST_OK.
+  op_core lim osys rcaps mem fmt_first fmt_next fmt_ptesz wfuel fuel infl caps a = Err st -> st <> ST_OK.
 Proof.
   induction fuel as [|f IH]; intros infl caps a st; cbn [op_core]; unfold op_body;
     destruct (op_pre lim osys infl caps a) as [r|[[s' k] c]] eqn:Ep; try discriminate.
@@ -479,17 +630,17 @@ Qed.
 (** * [addrxlat_op]: the operation is invoked at most once; exactly once on success *)
 
 Theorem addrxlat_op_callback lim osys rcaps mem fuel opret caps a st calls :
-  addrxlat_op lim osys rcaps mem fuel opret caps a = Done st calls ->
+  addrxlat_op lim osys rcaps mem fmt_first fmt_next fmt_ptesz wfuel fuel opret caps a = Done st calls ->
   (calls = [] /\ st <> ST_OK) \/ (exists x, calls = [x] /\ st = opret x).
 Proof.
   unfold addrxlat_op.
-  destruct (op_core lim osys rcaps mem fuel [] caps a) as [x|st'| |] eqn:E; try discriminate.
+  destruct (op_core lim osys rcaps mem fmt_first fmt_next fmt_ptesz wfuel fuel [] caps a) as [x|st'| |] eqn:E; try discriminate.
   - intros [= <- <-]. right. now exists x.
   - intros [= <- <-]. left. split; [reflexivity|]. eapply op_core_err_nonzero; exact E.
 Qed.
 
 Corollary addrxlat_op_once lim osys rcaps mem fuel opret caps a st calls :
-  addrxlat_op lim osys rcaps mem fuel opret caps a = Done st calls ->
+  addrxlat_op lim osys rcaps mem fmt_first fmt_next fmt_ptesz wfuel fuel opret caps a = Done st calls ->
   (length calls <= 1)%nat /\ (st = ST_OK -> length calls = 1%nat).
 Proof.
   intros H. apply addrxlat_op_callback in H.
@@ -502,7 +653,7 @@ Theorem guard_reports_nometh lim s rcaps mem fuel infl caps a c :
   caps_has caps (fa_as a) = Some false -> N.land caps 7 <> 0 ->
   choose_chain caps (fa_as a) = Some c ->
   In (fa_addr a, fa_as a, c) infl ->
-  op_core lim (Some s) rcaps mem fuel infl caps a = Err ST_NOMETH.
+  op_core lim (Some s) rcaps mem fmt_first fmt_next fmt_ptesz wfuel fuel infl caps a = Err ST_NOMETH.
 Proof.
   intros Hc H7 Hch Hin. apply N.eqb_neq in H7. apply existsb_key in Hin.
   destruct fuel; cbn [op_core]; unfold op_body, op_pre; rewrite Hc, H7, Hch, Hin; reflexivity.
@@ -512,7 +663,7 @@ Theorem limit_reports_nometh n s rcaps mem fuel infl caps a c :
   caps_has caps (fa_as a) = Some false -> N.land caps 7 <> 0 ->
   choose_chain caps (fa_as a) = Some c ->
   (n <= length infl)%nat ->
-  op_core (Some n) (Some s) rcaps mem fuel infl caps a = Err ST_NOMETH.
+  op_core (Some n) (Some s) rcaps mem fmt_first fmt_next fmt_ptesz wfuel fuel infl caps a = Err ST_NOMETH.
 Proof.
   intros Hc H7 Hch Hlen. apply N.eqb_neq in H7.
   assert (Ho : over_limit (Some n) infl = true) by (cbn; now apply Nat.leb_le).
@@ -524,7 +675,7 @@ Qed.
     on the in-flight list it was given *)
 Section Congr.
   Variable rcaps : N.
-  Variable mem : Z -> N -> N -> Z * N.
+  Variable mem : Z -> N -> N -> option (Z * N).
   Variables nested nested' : list key -> fulladdr -> cres.
   Variable infl : list key.
   Hypothesis same : forall fa, nested infl fa = nested' infl fa.
@@ -542,10 +693,41 @@ Section Congr.
     destruct (_ =? 0); [reflexivity|apply IH].
   Qed.
 
-  Lemma walk_congr m addr :
-    walk rcaps mem nested infl m addr = walk rcaps mem nested' infl m addr.
+  Lemma fwalk_loop_congr tgt mask pf : forall wf s,
+    fwalk_loop rcaps mem fmt_next fmt_ptesz nested wf infl tgt mask pf s =
+    fwalk_loop rcaps mem fmt_next fmt_ptesz nested' wf infl tgt mask pf s.
   Proof.
-    destruct m as [| |f|tas off|tas root pte64 mask fields|tas endoff tbl|tas base shift elemsz valsz];
+    induction wf as [|wf IH]; intros s; cbn [fwalk_loop]; [reflexivity|].
+    destruct (Step.s_remain s) as [|r]; [reflexivity|].
+    destruct (Step.advance s r) as [s1|]; [|reflexivity].
+    destruct r as [|r']; [reflexivity|].
+    assert (Hc : forall raw,
+      (let '(st0, s2) := fmt_next tgt mask pf s1 raw in
+       match st_of st0 with
+       | Some e => if (e =? ST_OK)%Z
+                   then fwalk_loop rcaps mem fmt_next fmt_ptesz nested wf infl tgt mask pf s2
+                   else WErr e
+       | None => WUB
+       end) =
+      (let '(st0, s2) := fmt_next tgt mask pf s1 raw in
+       match st_of st0 with
+       | Some e => if (e =? ST_OK)%Z
+                   then fwalk_loop rcaps mem fmt_next fmt_ptesz nested' wf infl tgt mask pf s2
+                   else WErr e
+       | None => WUB
+       end)).
+    { intros raw. destruct (fmt_next tgt mask pf s1 raw) as [st0 s2].
+      destruct (st_of st0) as [e|]; [|reflexivity].
+      destruct (e =? ST_OK)%Z; [apply IH|reflexivity]. }
+    destruct (fmt_ptesz pf) as [sz|]; [|apply Hc].
+    rewrite read_congr.
+    destruct (read rcaps mem nested' infl _ sz); try reflexivity. apply Hc.
+  Qed.
+
+  Lemma walk_congr m addr :
+    walk rcaps mem fmt_first fmt_next fmt_ptesz wfuel nested infl m addr = walk rcaps mem fmt_first fmt_next fmt_ptesz wfuel nested' infl m addr.
+  Proof.
+    destruct m as [| |f|tas off|tas root pte64 mask fields|tgt ras root mask pf|tas endoff tbl|tas base shift elemsz valsz];
       cbn [walk]; try reflexivity.
     - destruct (_ =? AS_NOADDR)%Z; [reflexivity|].
       destruct (8 <? length fields)%nat; [reflexivity|].
@@ -553,11 +735,15 @@ Section Congr.
       destruct (negb (top =? 0)); [reflexivity|].
       destruct idx as [|i0 upper]; [reflexivity|].
       rewrite pgt_levels_congr. reflexivity.
+    - destruct (fmt_first ras root pf addr) as [st0 s0].
+      destruct (st_of st0) as [e|]; [|reflexivity].
+      destruct (negb (e =? ST_OK)%Z); [reflexivity|].
+      destruct (Step.s_remain s0); [reflexivity|apply fwalk_loop_congr].
     - rewrite read_congr. reflexivity.
   Qed.
 
   Lemma do_alts_congr s caps alts : forall pa,
-    do_alts rcaps mem nested s infl caps alts pa = do_alts rcaps mem nested' s infl caps alts pa.
+    do_alts rcaps mem fmt_first fmt_next fmt_ptesz wfuel nested s infl caps alts pa = do_alts rcaps mem fmt_first fmt_next fmt_ptesz wfuel nested' s infl caps alts pa.
   Proof.
     induction alts as [|mapidx rest IH]; intros pa; cbn [do_alts]; [reflexivity|].
     destruct (negb _); [apply IH|].
@@ -570,7 +756,7 @@ Section Congr.
   Qed.
 
   Lemma do_chain_congr s caps ch : forall pa,
-    do_chain rcaps mem nested s infl caps ch pa = do_chain rcaps mem nested' s infl caps ch pa.
+    do_chain rcaps mem fmt_first fmt_next fmt_ptesz wfuel nested s infl caps ch pa = do_chain rcaps mem fmt_first fmt_next fmt_ptesz wfuel nested' s infl caps ch pa.
   Proof.
     induction ch as [|alts rest IH]; intros pa; cbn [do_chain]; [reflexivity|].
     rewrite do_alts_congr. destruct (do_alts _ _ _ _ _ _ _ _); try reflexivity; apply IH.
@@ -586,7 +772,7 @@ Definition infl_ok (lim : option nat) (infl : list key) : Prop :=
 Theorem op_body_nested_ok lim osys rcaps mem nested nested' infl caps a :
   infl_ok lim infl ->
   (forall i fa, infl_ok lim i -> nested i fa = nested' i fa) ->
-  op_body lim osys rcaps mem nested infl caps a = op_body lim osys rcaps mem nested' infl caps a.
+  op_body lim osys rcaps mem fmt_first fmt_next fmt_ptesz wfuel nested infl caps a = op_body lim osys rcaps mem fmt_first fmt_next fmt_ptesz wfuel nested' infl caps a.
 Proof.
   intros [Hnd Hlen] Hsame. unfold op_body.
   destruct (op_pre lim osys infl caps a) as [r|[[s k] c]] eqn:Ep; [reflexivity|].
@@ -623,18 +809,18 @@ Proof.
 Qed.
 
 Fixpoint op_core_chk (lim : option nat) (osys : option sys) (rcaps : N)
-         (mem : Z -> N -> N -> Z * N) (fuel : nat) (infl : list key) (caps : N) (fa : fulladdr)
+         (mem : Z -> N -> N -> option (Z * N)) (fuel : nat) (infl : list key) (caps : N) (fa : fulladdr)
   : cres :=
   if negb (infl_okb lim infl) then UB      (* assertion: the invariant holds on entry *)
   else match fuel with
        | O => match op_pre lim osys infl caps fa with inl r => r | inr _ => OutOfFuel end
-       | S f => op_body lim osys rcaps mem
+       | S f => op_body lim osys rcaps mem fmt_first fmt_next fmt_ptesz wfuel
                         (fun i a => op_core_chk lim osys rcaps mem f i rcaps a) infl caps fa
        end.
 
 Theorem op_core_invariant lim osys rcaps mem : forall fuel infl caps a,
   infl_ok lim infl ->
-  op_core_chk lim osys rcaps mem fuel infl caps a = op_core lim osys rcaps mem fuel infl caps a.
+  op_core_chk lim osys rcaps mem fuel infl caps a = op_core lim osys rcaps mem fmt_first fmt_next fmt_ptesz wfuel fuel infl caps a.
 Proof.
   induction fuel as [|f IH]; intros infl caps a Hok; cbn [op_core_chk op_core];
     rewrite (proj2 (infl_okb_spec lim infl) Hok); cbn [negb]; [reflexivity|].
@@ -648,7 +834,7 @@ Proof. split; [constructor|]. destruct lim; [cbn; lia|exact I]. Qed.
 
 Section Fuel.
   Variable rcaps : N.
-  Variable mem : Z -> N -> N -> Z * N.
+  Variable mem : Z -> N -> N -> option (Z * N).
   Variable nested : list key -> fulladdr -> cres.
   Variable infl : list key.
   Hypothesis nested_fuel : forall fa, nested infl fa <> OutOfFuel.
@@ -656,9 +842,9 @@ Section Fuel.
   Lemma read_fuel fa sz : read rcaps mem nested infl fa sz <> RFuel.
   Proof.
     unfold read, do_read. destruct (caps_has rcaps (fa_as fa)) as [[|]|]; try discriminate.
-    - destruct (mem _ _ _) as [st v]. destruct (st =? ST_OK)%Z; discriminate.
+    - destruct (mem _ _ _) as [[st v]|]; [|discriminate]. destruct (st =? ST_OK)%Z; discriminate.
     - specialize (nested_fuel fa). destruct (nested infl fa); try discriminate; [|contradiction].
-      destruct (mem _ _ _) as [st v]. destruct (st =? ST_OK)%Z; discriminate.
+      destruct (mem _ _ _) as [[st v]|]; [|discriminate]. destruct (st =? ST_OK)%Z; discriminate.
   Qed.
 
   Lemma pgt_levels_fuel tas pte64 mask sh0 idxs : forall base,
@@ -671,9 +857,32 @@ Section Fuel.
     destruct (_ =? 0); [discriminate|apply IH].
   Qed.
 
-  Lemma walk_fuel m addr : walk rcaps mem nested infl m addr <> WFuel.
+  Lemma fwalk_loop_fuel tgt mask pf : forall wf s,
+    fwalk_loop rcaps mem fmt_next fmt_ptesz nested wf infl tgt mask pf s <> WFuel.
   Proof.
-    destruct m as [| |f|tas off|tas root pte64 mask fields|tas endoff tbl|tas base shift elemsz valsz];
+    induction wf as [|wf IH]; intros s; cbn [fwalk_loop]; [discriminate|].
+    destruct (Step.s_remain s) as [|r]; [discriminate|].
+    destruct (Step.advance s r) as [s1|]; [|discriminate].
+    destruct r as [|r']; [discriminate|].
+    assert (Hc : forall raw,
+      (let '(st0, s2) := fmt_next tgt mask pf s1 raw in
+       match st_of st0 with
+       | Some e => if (e =? ST_OK)%Z
+                   then fwalk_loop rcaps mem fmt_next fmt_ptesz nested wf infl tgt mask pf s2
+                   else WErr e
+       | None => WUB
+       end) <> WFuel).
+    { intros raw. destruct (fmt_next tgt mask pf s1 raw) as [st0 s2].
+      destruct (st_of st0) as [e|]; [|discriminate].
+      destruct (e =? ST_OK)%Z; [apply IH|discriminate]. }
+    destruct (fmt_ptesz pf) as [sz|]; [|apply Hc].
+    pose proof (read_fuel (FA (Step.s_base s1) (as_of (Step.s_as s1))) sz) as Hr.
+    destruct (read rcaps mem nested infl _ sz); try discriminate; [apply Hc|contradiction].
+  Qed.
+
+  Lemma walk_fuel m addr : walk rcaps mem fmt_first fmt_next fmt_ptesz wfuel nested infl m addr <> WFuel.
+  Proof.
+    destruct m as [| |f|tas off|tas root pte64 mask fields|tgt ras root mask pf|tas endoff tbl|tas base shift elemsz valsz];
       cbn [walk]; try discriminate.
     - destruct (f addr) as [st fa]. destruct (st =? ST_OK)%Z; discriminate.
     - destruct (_ =? AS_NOADDR)%Z; [discriminate|].
@@ -684,6 +893,10 @@ Section Fuel.
       pose proof (pgt_levels_fuel tas pte64 mask (hd 0 fields) (rev upper) root) as Hp.
       destruct (pgt_levels rcaps mem nested infl tas pte64 mask (hd 0 fields) (rev upper) root);
         try discriminate. contradiction.
+    - destruct (fmt_first ras root pf addr) as [st0 s0].
+      destruct (st_of st0) as [e|]; [|discriminate].
+      destruct (negb (e =? ST_OK)%Z); [discriminate|].
+      destruct (Step.s_remain s0); [discriminate|apply fwalk_loop_fuel].
     - destruct (lookup_find tbl endoff addr) as [[o d]|]; discriminate.
     - destruct (64 <=? shift); [discriminate|].
       destruct ((valsz =? 4) || (valsz =? 8)); [|discriminate].
@@ -693,7 +906,7 @@ Section Fuel.
   Qed.
 
   Lemma do_alts_fuel s caps alts : forall pa,
-    do_alts rcaps mem nested s infl caps alts pa <> AReturn OutOfFuel.
+    do_alts rcaps mem fmt_first fmt_next fmt_ptesz wfuel nested s infl caps alts pa <> AReturn OutOfFuel.
   Proof.
     induction alts as [|mapidx rest IH]; intros pa; cbn [do_alts]; [discriminate|].
     destruct (negb _); [apply IH|].
@@ -701,16 +914,16 @@ Section Fuel.
     destruct (_ =? NONE)%Z; [apply IH|].
     destruct (get_meth s _) as [m|]; [|discriminate].
     assert (Hw :
-      match walk rcaps mem nested infl m (fa_addr pa) with
+      match walk rcaps mem fmt_first fmt_next fmt_ptesz wfuel nested infl m (fa_addr pa) with
       | WOk b0 => match caps_has caps (fa_as b0) with
                   | Some true => AReturn (Call b0) | Some false => ABreak b0 | None => AReturn UB end
       | WErr st => if ((st =? ST_NOMETH)%Z || (st =? ST_NODATA)%Z)%bool
-                   then do_alts rcaps mem nested s infl caps rest pa else AReturn (Err st)
+                   then do_alts rcaps mem fmt_first fmt_next fmt_ptesz wfuel nested s infl caps rest pa else AReturn (Err st)
       | WFuel => AReturn OutOfFuel
       | WUB => AReturn UB
       end <> AReturn OutOfFuel).
     { pose proof (walk_fuel m (fa_addr pa)) as Hwf.
-      destruct (walk rcaps mem nested infl m (fa_addr pa)) as [b1|st'| |]; try discriminate.
+      destruct (walk rcaps mem fmt_first fmt_next fmt_ptesz wfuel nested infl m (fa_addr pa)) as [b1|st'| |]; try discriminate.
       - destruct (caps_has caps (fa_as b1)) as [[|]|]; discriminate.
       - destruct (_ || _)%bool; [apply IH|discriminate].
       - contradiction. }
@@ -719,11 +932,11 @@ Section Fuel.
   Qed.
 
   Lemma do_chain_fuel s caps ch : forall pa,
-    do_chain rcaps mem nested s infl caps ch pa <> OutOfFuel.
+    do_chain rcaps mem fmt_first fmt_next fmt_ptesz wfuel nested s infl caps ch pa <> OutOfFuel.
   Proof.
     induction ch as [|alts rest IH]; intros pa; cbn [do_chain]; [discriminate|].
     pose proof (do_alts_fuel s caps alts pa) as Ha.
-    destruct (do_alts rcaps mem nested s infl caps alts pa) as [r|pa'|]; try apply IH.
+    destruct (do_alts rcaps mem fmt_first fmt_next fmt_ptesz wfuel nested s infl caps alts pa) as [r|pa'|]; try apply IH.
     intros ->. now apply Ha.
   Qed.
 End Fuel.
@@ -740,7 +953,7 @@ Qed.
 
 Theorem depth_bounded n osys rcaps mem : forall fuel infl caps a,
   (n + 1 <= fuel + length infl)%nat ->
-  op_core (Some n) osys rcaps mem fuel infl caps a <> OutOfFuel.
+  op_core (Some n) osys rcaps mem fmt_first fmt_next fmt_ptesz wfuel fuel infl caps a <> OutOfFuel.
 Proof.
   induction fuel as [|f IH]; intros infl caps a Hlen; cbn [op_core]; unfold op_body;
     destruct (op_pre (Some n) osys infl caps a) as [r|[[s k] c]] eqn:Ep.
@@ -753,7 +966,7 @@ Qed.
 
 Theorem fuel_irrelevant n osys rcaps mem : forall fuel fuel' infl caps a,
   (n + 1 <= fuel + length infl)%nat -> (n + 1 <= fuel' + length infl)%nat ->
-  op_core (Some n) osys rcaps mem fuel infl caps a = op_core (Some n) osys rcaps mem fuel' infl caps a.
+  op_core (Some n) osys rcaps mem fmt_first fmt_next fmt_ptesz wfuel fuel infl caps a = op_core (Some n) osys rcaps mem fmt_first fmt_next fmt_ptesz wfuel fuel' infl caps a.
 Proof.
   induction fuel as [|f IH]; intros fuel' infl caps a H1 H2.
   - destruct fuel' as [|f']; [reflexivity|].
@@ -771,6 +984,63 @@ Proof.
       apply do_chain_congr. intros fa. apply IH; cbn [length]; lia.
 Qed.
 
+(** * Statements at the level of [addrxlat_op] *)
+
+Theorem addrxlat_op_passthrough lim osys rcaps mem fuel opret caps a :
+  in_caps caps (fa_as a) ->
+  addrxlat_op lim osys rcaps mem fmt_first fmt_next fmt_ptesz wfuel fuel opret caps a = Done (opret a) [a].
+Proof.
+  intros H. unfold addrxlat_op. now rewrite op_core_passthrough.
+Qed.
+
+Theorem addrxlat_op_in_caps lim osys rcaps mem fuel opret caps a st calls :
+  addrxlat_op lim osys rcaps mem fmt_first fmt_next fmt_ptesz wfuel fuel opret caps a = Done st calls ->
+  forall x, In x calls -> in_caps caps (fa_as x).
+Proof.
+  unfold addrxlat_op.
+  destruct (op_core lim osys rcaps mem fmt_first fmt_next fmt_ptesz wfuel fuel [] caps a) as [y|st'| |] eqn:E; try discriminate.
+  - intros [= <- <-] x [<-|[]]. eapply op_core_in_caps; exact E.
+  - intros [= <- <-] x [].
+Qed.
+
+Theorem addrxlat_op_composition lim s rcaps mem fuel opret caps a st calls :
+  addrxlat_op lim (Some s) rcaps mem fmt_first fmt_next fmt_ptesz wfuel fuel opret caps a = Done st calls ->
+  forall x, In x calls ->
+    convB s rcaps mem fmt_first fmt_next fmt_ptesz wfuel fuel 2 caps a x /\
+    conv s rcaps mem fmt_first fmt_next fmt_ptesz wfuel caps a x.
+Proof.
+  unfold addrxlat_op.
+  destruct (op_core lim (Some s) rcaps mem fmt_first fmt_next fmt_ptesz wfuel fuel [] caps a) as [y|st'| |] eqn:E; try discriminate.
+  - intros [= <- <-] x [<-|[]].
+    pose proof (op_core_sound lim s rcaps mem fmt_first fmt_next fmt_ptesz wfuel
+                  fuel [] caps a y E) as H.
+    split; [exact H|]. exists fuel, 2%nat. exact H.
+  - intros [= <- <-] x [].
+Qed.
+
+Theorem addrxlat_op_nosys lim rcaps mem fuel opret caps a st calls :
+  addrxlat_op lim None rcaps mem fmt_first fmt_next fmt_ptesz wfuel fuel opret caps a = Done st calls ->
+  forall x, In x calls -> x = a /\ in_caps caps (fa_as a).
+Proof.
+  unfold addrxlat_op.
+  destruct (op_core lim None rcaps mem fmt_first fmt_next fmt_ptesz wfuel fuel [] caps a) as [y|st'| |] eqn:E; try discriminate.
+  - intros [= <- <-] x [<-|[]]. eapply op_core_nosys; exact E.
+  - intros [= <- <-] x [].
+Qed.
+
+Theorem addrxlat_op_depth_bounded n osys rcaps mem fuel opret caps a :
+  (n + 1 <= fuel)%nat ->
+  addrxlat_op (Some n) osys rcaps mem fmt_first fmt_next fmt_ptesz wfuel fuel opret caps a <> NoFuel /\
+  addrxlat_op (Some n) osys rcaps mem fmt_first fmt_next fmt_ptesz wfuel fuel opret caps a =
+  addrxlat_op (Some n) osys rcaps mem fmt_first fmt_next fmt_ptesz wfuel (n + 1) opret caps a.
+Proof.
+  intros H. unfold addrxlat_op. split.
+  - pose proof (depth_bounded n osys rcaps mem fuel [] caps a) as Hd.
+    destruct (op_core (Some n) osys rcaps mem fmt_first fmt_next fmt_ptesz wfuel fuel [] caps a); try discriminate.
+    exfalso. apply Hd; [cbn [length]; lia|reflexivity].
+  - rewrite (fuel_irrelevant n osys rcaps mem fuel (n + 1) [] caps a) by (cbn [length]; lia).
+    reflexivity.
+Qed.
 (** * [addrxlat_fulladdr_conv] *)
 
 Lemma in_caps_single k x : (0 <= k)%Z -> in_caps (N.shiftl 1 (Z.to_N k)) x -> x = k.
@@ -781,120 +1051,220 @@ Proof.
 Qed.
 
 Theorem fulladdr_conv_spec lim s rcaps mem fuel fa as_ st fa' :
-  fulladdr_conv lim (Some s) rcaps mem fuel fa as_ = Conv st fa' ->
-  (st = ST_OK /\ fa_as fa' = as_ /\ conv s rcaps mem (N.shiftl 1 (Z.to_N as_)) fa fa')
+  fulladdr_conv lim (Some s) rcaps mem fmt_first fmt_next fmt_ptesz wfuel fuel fa as_ = Conv st fa' ->
+  (st = ST_OK /\ fa_as fa' = as_ /\ conv s rcaps mem fmt_first fmt_next fmt_ptesz wfuel (N.shiftl 1 (Z.to_N as_)) fa fa')
   \/ (st <> ST_OK /\ fa' = fa).
 Proof.
   unfold fulladdr_conv, addrxlat_op.
   destruct ((0 <=? as_)%Z && (as_ <? 64)%Z) eqn:Er; cbn [negb]; [|discriminate].
   apply andb_prop in Er. destruct Er as [E0 _]. apply Z.leb_le in E0.
-  destruct (op_core lim (Some s) rcaps mem fuel [] (N.shiftl 1 (Z.to_N as_)) fa) as [x|st'| |] eqn:E;
+  destruct (op_core lim (Some s) rcaps mem fmt_first fmt_next fmt_ptesz wfuel fuel [] (N.shiftl 1 (Z.to_N as_)) fa) as [x|st'| |] eqn:E;
     try discriminate.
   - intros [= <- <-]. left. split; [reflexivity|]. split.
     + apply op_core_in_caps in E. now apply in_caps_single in E.
-    + now apply op_core_sound in E.
+    + exact (op_core_conv lim s rcaps mem fmt_first fmt_next fmt_ptesz wfuel
+               fuel [] _ fa x E).
   - intros [= <- <-]. right. split; [|reflexivity]. eapply op_core_err_nonzero; exact E.
 Qed.
 
-(** * The enumeration of SysSpec.v is sound: what it lists are conversions *)
 
-Lemma lookup_all_sound tbl endoff a tas b :
-  In b (lookup_all tbl endoff a tas) ->
+End AnyFormat.
+
+(** * The enumeration of SysSpec.v is exact: it lists the conversions of
+    measure (d, len), all of them and nothing else *)
+
+Lemma lookup_all_iff tbl endoff a tas b :
+  In b (lookup_all tbl endoff a tas) <->
   exists orig dest, In (orig, dest) tbl /\ orig <= a /\ a <= orig + endoff /\
                     b = FA (wadd dest (wsub a orig)) tas.
 Proof.
-  induction tbl as [|[o d] tl IH]; cbn [lookup_all]; [intros []|].
-  rewrite in_app_iff. intros [H|H].
-  - destruct ((o <=? a) && (a <=? o + endoff)) eqn:E; [|destruct H].
-    destruct H as [<-|[]]. apply andb_prop in E. destruct E as [E1 E2].
-    apply N.leb_le in E1. apply N.leb_le in E2.
-    exists o, d. repeat split; try assumption. now left.
-  - destruct (IH H) as [o' [d' [H1 H2]]]. exists o', d'. split; [now right|assumption].
+  induction tbl as [|[o d] tl IH]; cbn [lookup_all].
+  - split; [intros []|intros [o [d [[] _]]]].
+  - rewrite in_app_iff, IH. split.
+    + intros [H|[o' [d' [H1 H2]]]].
+      * destruct ((o <=? a) && (a <=? o + endoff)) eqn:E; [|destruct H].
+        destruct H as [<-|[]]. apply andb_prop in E. destruct E as [E1 E2].
+        apply N.leb_le in E1. apply N.leb_le in E2.
+        exists o, d. repeat split; try assumption. now left.
+      * exists o', d'. split; [now right|assumption].
+    + intros [o' [d' [[Heq|Hin] [H1 [H2 ->]]]]].
+      * injection Heq as <- <-. left.
+        apply N.leb_le in H1. apply N.leb_le in H2. rewrite H1, H2. now left.
+      * right. exists o', d'. repeat split; assumption.
 Qed.
 
-Section EnumSound.
+Section Exact.
   Variable s : sys.
   Variable rcaps : N.
-  Variable mem : Z -> N -> N -> Z * N.
+  Variable mem : Z -> N -> N -> option (Z * N).
+  Variable fmt_first : Step.aspace -> N -> Step.pform -> N -> Step.status * Step.step.
+  Variable fmt_next : Step.aspace -> N -> Step.pform -> Step.step -> N -> Step.status * Step.step.
+  Variable fmt_ptesz : Step.pform -> option N.
+  Variable wf : nat.
 
   Section WithRd.
-    Variable rd : fulladdr -> N -> list N.
-    Hypothesis rd_sound : forall fa sz v, In v (rd fa sz) -> rdval s rcaps mem fa sz v.
+    Variable rdl : fulladdr -> N -> list N.
+    Variable rdr : fulladdr -> N -> N -> Prop.
+    Hypothesis rd_iff : forall fa sz v, In v (rdl fa sz) <-> rdr fa sz v.
 
-    Lemma tables_all_sound tas pte64 mask sh0 idxs : forall base b,
-      In b (tables_all rd tas pte64 mask sh0 idxs base) ->
-      tables s rcaps mem tas pte64 mask sh0 idxs base b.
+    Lemma tables_all_iff tas pte64 mask sh0 idxs : forall base b,
+      In b (tables_all rdl tas pte64 mask sh0 idxs base) <->
+      tables rdr tas pte64 mask sh0 idxs base b.
     Proof.
       induction idxs as [|i tl IH]; intros base b; cbn [tables_all].
-      - intros [<-|[]]. constructor.
-      - rewrite in_flat_map. intros [raw [Hr Hb]].
-        destruct (N.ldiff raw mask =? 0) eqn:Ez; [destruct Hb|]. apply N.eqb_neq in Ez.
-        eapply tables_cons; [apply rd_sound; exact Hr|exact Ez|now apply IH].
+      - split; [intros [<-|[]]; constructor|intros H; inversion H; now left].
+      - rewrite in_flat_map. split.
+        + intros [raw [Hr Hb]].
+          destruct (N.ldiff raw mask =? 0) eqn:Ez; [destruct Hb|]. apply N.eqb_neq in Ez.
+          eapply tables_cons; [apply rd_iff; exact Hr|exact Ez|now apply IH].
+        + intros H. inversion H as [|? ? ? raw ? Hrd Hnz Ht]; subst.
+          exists raw. split; [now apply rd_iff|].
+          apply N.eqb_neq in Hnz. rewrite Hnz. now apply IH.
     Qed.
 
-    Lemma xlat_all_sound m a b : In b (xlat_all rd m a) -> xlat s rcaps mem m a b.
+    Lemma fwalk_all_iff tgt mask pf : forall n st b,
+      In b (fwalk_all fmt_next fmt_ptesz rdl n tgt mask pf st) <->
+      fwalk fmt_next fmt_ptesz rdr tgt mask pf n st b.
     Proof.
-      destruct m as [| |f|tas off|tas root pte64 mask fields|tas endoff tbl|tas base shift elemsz valsz];
-        cbn [xlat_all]; try (intros H; solve [destruct H]).
-      - destruct (f a) as [st x] eqn:Ef. destruct (st =? ST_OK)%Z eqn:E; [|intros []].
-        intros [<-|[]]. apply Z.eqb_eq in E. subst. now constructor.
-      - intros [<-|[]]. constructor.
-      - destruct (fa_as root =? AS_NOADDR)%Z eqn:En; [intros []|]. apply Z.eqb_neq in En.
-        destruct (split_fields fields a) as [[idx top]|] eqn:Es; [|intros []].
-        destruct top as [|p]; [|intros []].
-        rewrite in_map_iff. intros [b' [<- Hb']].
-        apply tables_all_sound in Hb'.
-        exact (xlat_pgt s rcaps mem tas root pte64 mask fields a idx b' En Es Hb').
-      - intros H. apply lookup_all_sound in H. destruct H as [o [d [H1 [H2 [H3 ->]]]]].
-        now constructor.
-      - destruct ((shift <? 64) && ((valsz =? 4) || (valsz =? 8))) eqn:E; [|intros []].
-        apply andb_prop in E. destruct E as [E1 E2]. apply N.ltb_lt in E1.
-        apply orb_prop in E2. rewrite !N.eqb_eq in E2.
-        rewrite in_map_iff. intros [v [<- Hv]].
-        constructor; [assumption|assumption|now apply rd_sound].
+      induction n as [|n IH]; intros st b; cbn [fwalk_all].
+      - split; [intros []|intros H; inversion H].
+      - split.
+        + destruct (Step.s_remain st) as [|r] eqn:Er; [intros []|].
+          destruct (Step.advance st r) as [s1|] eqn:Ea; [|intros []].
+          destruct r as [|r'].
+          * intros [<-|[]]. eapply fwalk_last; eassumption.
+          * rewrite in_flat_map. intros [raw [Hraw Hb]].
+            destruct (fmt_next tgt mask pf s1 raw) as [st0 s2] eqn:En.
+            destruct st0; try (destruct Hb; fail).
+            eapply fwalk_level; try eassumption.
+            -- destruct (fmt_ptesz pf) as [sz|]; [now apply rd_iff|].
+               destruct Hraw as [<-|[]]. reflexivity.
+            -- now apply IH.
+        + intros H. inversion H as [? ? s1 Hr Ha|? ? r s1 raw s2 ? Hr Ha Hraw Hn Hw]; subst.
+          * rewrite Hr, Ha. now left.
+          * rewrite Hr, Ha. rewrite in_flat_map. exists raw. split.
+            -- destruct (fmt_ptesz pf) as [sz|]; [now apply rd_iff|]. subst raw. now left.
+            -- rewrite Hn. now apply IH.
     Qed.
 
-    Lemma step_all_sound a b : In b (step_all s rd a) -> step1 s rcaps mem a b.
+    Notation xlatR := (xlat fmt_first fmt_next fmt_ptesz wf rdr).
+    Notation xlatL := (xlat_all fmt_first fmt_next fmt_ptesz wf rdl).
+
+    Lemma xlat_all_iff m a b : In b (xlatL m a) <-> xlatR m a b.
     Proof.
-      unfold step_all. rewrite in_flat_map. intros [mapidx [Hin H]].
-      destruct (fa_as a =? map_expect_as mapidx)%Z eqn:Eas; [|destruct H].
-      apply Z.eqb_eq in Eas.
-      destruct (s_map s mapidx) as [mp|] eqn:Emp; [|destruct H].
-      destruct (get_meth s (map_search mp (fa_addr a))) as [m|] eqn:Em; [|destruct H].
-      eapply step1_map; try eassumption. now apply xlat_all_sound.
+      split.
+      - destruct m as [| |f|tas off|tas root pte64 mask fields|tgt ras root mask pf|tas endoff tbl
+                       |tas base shift elemsz valsz];
+          cbn [xlat_all]; try (intros H; solve [destruct H]).
+        + destruct (f a) as [st x] eqn:Ef. destruct (st =? ST_OK)%Z eqn:E; [|intros []].
+          intros [<-|[]]. apply Z.eqb_eq in E. subst. now constructor.
+        + intros [<-|[]]. constructor.
+        + destruct (fa_as root =? AS_NOADDR)%Z eqn:En; [intros []|]. apply Z.eqb_neq in En.
+          destruct (split_fields fields a) as [[idx top]|] eqn:Es; [|intros []].
+          destruct top as [|p]; [|intros []].
+          rewrite in_map_iff. intros [b' [<- Hb']].
+          apply tables_all_iff in Hb'.
+          exact (xlat_pgt fmt_first fmt_next fmt_ptesz wf rdr tas root pte64 mask fields a idx b'
+                          En Es Hb').
+        + destruct (fmt_first ras root pf a) as [st0 st] eqn:Ef.
+          destruct st0; try (intros H; solve [destruct H]).
+          destruct (Step.s_remain st) as [|r] eqn:Er.
+          * intros [<-|[]]. now apply xlat_pgtf_done.
+          * intros H. apply fwalk_all_iff in H.
+            eapply xlat_pgtf_walk; [exact Ef|rewrite Er; discriminate|exact H].
+        + intros H. apply lookup_all_iff in H. destruct H as [o [d [H1 [H2 [H3 ->]]]]].
+          now constructor.
+        + destruct ((shift <? 64) && ((valsz =? 4) || (valsz =? 8))) eqn:E; [|intros []].
+          apply andb_prop in E. destruct E as [E1 E2]. apply N.ltb_lt in E1.
+          apply orb_prop in E2. rewrite !N.eqb_eq in E2.
+          rewrite in_map_iff. intros [v [<- Hv]].
+          constructor; [assumption|assumption|now apply rd_iff].
+      - intros H. destruct H as [f a b Hf|tas off a|tas endoff tbl a orig dest Hin H1 H2
+                                 |tas base shift elemsz valsz a v Hs Hv Hrd
+                                 |tas root pte64 mask fields a idx b Hn Hsp Ht
+                                 |tgt ras root mask pf a st Hf Hr
+                                 |tgt ras root mask pf a st b Hf Hr Hw]; cbn [xlat_all].
+        + rewrite Hf. rewrite Z.eqb_refl. now left.
+        + now left.
+        + apply lookup_all_iff. exists orig, dest. repeat split; assumption.
+        + apply N.ltb_lt in Hs. rewrite Hs.
+          assert (E : (valsz =? 4) || (valsz =? 8) = true).
+          { destruct Hv as [->| ->]; reflexivity. }
+          rewrite E. cbn [andb]. apply in_map_iff. exists v. split; [reflexivity|now apply rd_iff].
+        + apply Z.eqb_neq in Hn. rewrite Hn, Hsp.
+          apply in_map_iff. exists b. split; [reflexivity|now apply tables_all_iff].
+        + rewrite Hf, Hr. now left.
+        + rewrite Hf. destruct (Step.s_remain st) as [|r]; [contradiction|].
+          now apply fwalk_all_iff.
     Qed.
 
-    Lemma path_all_sound len : forall caps a b,
-      In b (path_all s rd len caps a) -> conv s rcaps mem caps a b.
+    Notation step1R := (step1 s fmt_first fmt_next fmt_ptesz wf rdr).
+    Notation pathR := (path s fmt_first fmt_next fmt_ptesz wf rdr).
+
+    Lemma step_all_iff a b :
+      In b (step_all s fmt_first fmt_next fmt_ptesz wf rdl a) <-> step1R a b.
     Proof.
-      induction len as [|l IH]; intros caps a b; cbn [path_all];
+      unfold step_all. rewrite in_flat_map. split.
+      - intros [mapidx [Hin H]].
+        destruct (fa_as a =? map_expect_as mapidx)%Z eqn:Eas; [|destruct H].
+        apply Z.eqb_eq in Eas.
+        destruct (s_map s mapidx) as [mp|] eqn:Emp; [|destruct H].
+        destruct (get_meth s (map_search mp (fa_addr a))) as [m|] eqn:Em; [|destruct H].
+        eapply step1_map; try eassumption. now apply xlat_all_iff.
+      - intros H. destruct H as [a b mapidx mp m Hin Has Hmp Hm Hx].
+        exists mapidx. split; [exact Hin|].
+        rewrite Has, Z.eqb_refl, Hmp, Hm. now apply xlat_all_iff.
+    Qed.
+
+    Lemma path_all_iff caps : forall len a b,
+      In b (path_all s fmt_first fmt_next fmt_ptesz wf rdl len caps a) <-> pathR caps len a b.
+    Proof.
+      induction len as [|l IH]; intros a b; cbn [path_all];
         destruct (in_capsb caps (fa_as a)) eqn:E.
-      - intros [<-|[]]. apply conv_done. now apply in_capsb_spec.
-      - intros [].
-      - intros [<-|[]]. apply conv_done. now apply in_capsb_spec.
-      - rewrite in_flat_map. intros [c [Hc Hb]].
-        eapply conv_step; [apply step_all_sound; exact Hc|now apply IH].
+      - apply in_capsb_spec in E. split.
+        + intros [<-|[]]. now apply path_done.
+        + intros H. inversion H; subst. now left.
+      - split; [intros []|].
+        intros H. inversion H; subst. apply in_capsb_spec in H0. congruence.
+      - apply in_capsb_spec in E. split.
+        + intros [<-|[]]. now apply path_done.
+        + intros H. inversion H; subst; [now left|contradiction].
+      - rewrite in_flat_map. split.
+        + intros [c [Hc Hb]]. eapply path_step.
+          * intros Hi. apply in_capsb_spec in Hi. congruence.
+          * apply step_all_iff. exact Hc.
+          * now apply IH.
+        + intros H. inversion H as [? ? Hi|? ? c ? Hn Hs Hp]; subst.
+          * apply in_capsb_spec in Hi. congruence.
+          * exists c. split; [now apply step_all_iff|now apply IH].
     Qed.
   End WithRd.
 
-  Lemma rd_via_sound cv :
-    (forall fa x, In x (cv fa) -> conv s rcaps mem rcaps fa x) ->
-    forall fa sz v, In v (rd_via mem cv fa sz) -> rdval s rcaps mem fa sz v.
+  Notation convB' := (convB s rcaps mem fmt_first fmt_next fmt_ptesz wf).
+  Notation conv_all' := (conv_all s rcaps mem fmt_first fmt_next fmt_ptesz wf).
+
+  Lemma rd_via_iff cv (Cv : fulladdr -> fulladdr -> Prop) :
+    (forall fa x, In x (cv fa) <-> Cv fa x) ->
+    forall fa sz v, In v (rd_via mem cv fa sz) <->
+                    exists fa', Cv fa fa' /\ mem (fa_as fa') (fa_addr fa') sz = Some (ST_OK, v).
   Proof.
-    intros Hcv fa sz v. unfold rd_via. rewrite in_flat_map. intros [fa' [Hfa Hv]].
-    destruct (mem (fa_as fa') (fa_addr fa') sz) as [st v'] eqn:Em.
-    destruct (st =? ST_OK)%Z eqn:E; [|destruct Hv]. destruct Hv as [<-|[]].
-    apply Z.eqb_eq in E. subst st.
-    eapply rdval_intro; [apply Hcv; exact Hfa|exact Em].
+    intros Hcv fa sz v. unfold rd_via. rewrite in_flat_map. split.
+    - intros [fa' [Hfa Hv]].
+      destruct (mem (fa_as fa') (fa_addr fa') sz) as [[st v']|] eqn:Em; [|destruct Hv].
+      destruct (st =? ST_OK)%Z eqn:E; [|destruct Hv]. destruct Hv as [<-|[]].
+      apply Z.eqb_eq in E. subst st. exists fa'. split; [now apply Hcv|exact Em].
+    - intros [fa' [Hc Hm]]. exists fa'. split; [now apply Hcv|].
+      rewrite Hm, Z.eqb_refl. now left.
   Qed.
 
-  Theorem conv_all_sound len : forall d caps a b,
-    In b (conv_all s rcaps mem d len caps a) -> conv s rcaps mem caps a b.
+  Theorem conv_all_exact len : forall d caps a b,
+    In b (conv_all' d len caps a) <-> convB' d len caps a b.
   Proof.
-    induction d as [|d IH]; intros caps a b; cbn [conv_all].
-    - destruct (in_capsb caps (fa_as a)) eqn:E; [|intros []].
-      intros [<-|[]]. apply conv_done. now apply in_capsb_spec.
-    - apply path_all_sound. apply rd_via_sound. intros fa x. apply IH.
+    induction d as [|d IH]; intros caps a b; cbn [conv_all convB].
+    - destruct (in_capsb caps (fa_as a)) eqn:E.
+      + apply in_capsb_spec in E. split; [intros [<-|[]]; now split|intros [_ ->]; now left].
+      + split; [intros []|]. intros [H _]. apply in_capsb_spec in H. congruence.
+    - apply path_all_iff. apply rd_via_iff. intros fa x. apply IH.
   Qed.
 
   Lemma fa_eqb_eq x y : fa_eqb x y = true <-> x = y.
@@ -903,84 +1273,72 @@ Section EnumSound.
     destruct x, y; cbn. split; [intros [-> ->]; reflexivity|intros [= -> ->]; auto].
   Qed.
 
-  (** a run the judge accepts is as the property demands *)
-  Theorem judge_sound d len caps opret a st calls depth :
-    judge s rcaps mem d len caps opret a st calls depth = 0 ->
+  (** what the property demands of one observed run, with the composition
+      clause restricted to conversions of nesting at most [d] and at most
+      [len] methods in a row *)
+  Definition run_ok (d len : nat) (caps : N) (opret : Z) (a : fulladdr)
+             (st : Z) (calls : list fulladdr) (depth : nat) : Prop :=
     (depth <= MAX_OP_DEPTH)%nat /\
     ((calls = [] /\ st <> ST_OK /\ ~ in_caps caps (fa_as a)) \/
      (exists x, calls = [x] /\ st = opret /\ in_caps caps (fa_as x) /\
-                conv s rcaps mem caps a x /\ (in_caps caps (fa_as a) -> x = a))).
+                exists d', (d' <= d)%nat /\ convB' d' len caps a x)).
+
+  Notation judge' := (judge s rcaps mem fmt_first fmt_next fmt_ptesz wf).
+
+  (** the judge is exact *)
+  Theorem judge_exact d len caps opret a st calls depth :
+    judge' d len caps opret a st calls depth = 0 <-> run_ok d len caps opret a st calls depth.
   Proof.
-    unfold judge. destruct (MAX_OP_DEPTH <? depth)%nat eqn:Ed; [discriminate|].
-    apply Nat.ltb_ge in Ed. intros H. split; [assumption|].
-    destruct calls as [|x [|y tl]]; [| |discriminate].
-    - left. destruct (st =? ST_OK)%Z eqn:Es; [discriminate|]. apply Z.eqb_neq in Es.
-      destruct (in_capsb caps (fa_as a)) eqn:Ec; [discriminate|].
-      repeat split; try assumption. intros Hc. apply in_capsb_spec in Hc. congruence.
-    - right. exists x.
-      destruct (st =? opret)%Z eqn:Es; cbn [negb] in H; [|discriminate]. apply Z.eqb_eq in Es.
-      destruct (in_capsb caps (fa_as x)) eqn:Ex; cbn [negb] in H; [|discriminate].
-      destruct (in_capsb caps (fa_as a) && negb (fa_eqb x a)) eqn:Ep; [discriminate|].
-      destruct (existsb (fun d' => existsb (fa_eqb x) (conv_all s rcaps mem d' len caps a)) (seq 0 (S d)))
-        eqn:Ee; cbn [negb] in H; [|discriminate].
-      split; [reflexivity|]. split; [assumption|]. split; [now apply in_capsb_spec|]. split.
-      + apply existsb_exists in Ee. destruct Ee as [d' [_ Ee]].
+    unfold judge, run_ok. split.
+    - destruct (MAX_OP_DEPTH <? depth)%nat eqn:Ed; [discriminate|].
+      apply Nat.ltb_ge in Ed. intros H. split; [assumption|].
+      destruct calls as [|x [|y tl]]; [| |discriminate].
+      + left. destruct (st =? ST_OK)%Z eqn:Es; [discriminate|]. apply Z.eqb_neq in Es.
+        destruct (in_capsb caps (fa_as a)) eqn:Ec; [discriminate|].
+        repeat split; try assumption. intros Hc. apply in_capsb_spec in Hc. congruence.
+      + right. exists x.
+        destruct (st =? opret)%Z eqn:Es; cbn [negb] in H; [|discriminate]. apply Z.eqb_eq in Es.
+        destruct (in_capsb caps (fa_as x)) eqn:Ex; cbn [negb] in H; [|discriminate].
+        destruct (existsb _ (seq 0 (S d))) eqn:Ee; cbn [negb] in H; [|discriminate].
+        split; [reflexivity|]. split; [assumption|]. split; [now apply in_capsb_spec|].
+        apply existsb_exists in Ee. destruct Ee as [d' [Hd' Ee]].
+        apply in_seq in Hd'.
         apply existsb_exists in Ee. destruct Ee as [y [Hy He]]. apply fa_eqb_eq in He. subst y.
-        eapply conv_all_sound; exact Hy.
-      + intros Hc. apply in_capsb_spec in Hc. rewrite Hc in Ep. cbn in Ep.
-        apply negb_false_iff in Ep. now apply fa_eqb_eq.
+        exists d'. split; [lia|]. now apply conv_all_exact.
+    - intros [Hd H]. apply Nat.ltb_ge in Hd. rewrite Hd.
+      destruct H as [[-> [Hs Hc]]|[x [-> [-> [Hx [d' [Hd' Hcv]]]]]]].
+      + apply Z.eqb_neq in Hs. rewrite Hs.
+        destruct (in_capsb caps (fa_as a)) eqn:E; [|reflexivity].
+        apply in_capsb_spec in E. contradiction.
+      + rewrite Z.eqb_refl. cbn [negb].
+        apply in_capsb_spec in Hx. rewrite Hx. cbn [negb].
+        assert (E : existsb (fun d0 => existsb (fa_eqb x) (conv_all' d0 len caps a)) (seq 0 (S d)) = true).
+        { apply existsb_exists. exists d'. split; [apply in_seq; lia|].
+          apply existsb_exists. exists x. split; [now apply conv_all_exact|now apply fa_eqb_eq]. }
+        rewrite E. reflexivity.
   Qed.
-End EnumSound.
+End Exact.
 
-(** * Statements at the level of [addrxlat_op] *)
-
-Theorem addrxlat_op_passthrough lim osys rcaps mem fuel opret caps a :
-  in_caps caps (fa_as a) ->
-  addrxlat_op lim osys rcaps mem fuel opret caps a = Done (opret a) [a].
+(** * Every run of the model is accepted by the judge *)
+Theorem model_passes_judge lim s rcaps mem fmt_first fmt_next fmt_ptesz wfuel
+        fuel opret caps a st calls depth :
+  addrxlat_op lim (Some s) rcaps mem fmt_first fmt_next fmt_ptesz wfuel fuel (fun _ => opret) caps a
+  = Done st calls ->
+  (depth <= MAX_OP_DEPTH)%nat ->
+  judge s rcaps mem fmt_first fmt_next fmt_ptesz wfuel fuel 2 caps opret a st calls depth = 0.
 Proof.
-  intros H. unfold addrxlat_op. now rewrite op_core_passthrough.
-Qed.
-
-Theorem addrxlat_op_in_caps lim osys rcaps mem fuel opret caps a st calls :
-  addrxlat_op lim osys rcaps mem fuel opret caps a = Done st calls ->
-  forall x, In x calls -> in_caps caps (fa_as x).
-Proof.
-  unfold addrxlat_op.
-  destruct (op_core lim osys rcaps mem fuel [] caps a) as [y|st'| |] eqn:E; try discriminate.
-  - intros [= <- <-] x [<-|[]]. eapply op_core_in_caps; exact E.
-  - intros [= <- <-] x [].
-Qed.
-
-Theorem addrxlat_op_composition lim s rcaps mem fuel opret caps a st calls :
-  addrxlat_op lim (Some s) rcaps mem fuel opret caps a = Done st calls ->
-  forall x, In x calls -> conv s rcaps mem caps a x.
-Proof.
-  unfold addrxlat_op.
-  destruct (op_core lim (Some s) rcaps mem fuel [] caps a) as [y|st'| |] eqn:E; try discriminate.
-  - intros [= <- <-] x [<-|[]]. eapply op_core_sound; exact E.
-  - intros [= <- <-] x [].
-Qed.
-
-Theorem addrxlat_op_nosys lim rcaps mem fuel opret caps a st calls :
-  addrxlat_op lim None rcaps mem fuel opret caps a = Done st calls ->
-  forall x, In x calls -> x = a /\ in_caps caps (fa_as a).
-Proof.
-  unfold addrxlat_op.
-  destruct (op_core lim None rcaps mem fuel [] caps a) as [y|st'| |] eqn:E; try discriminate.
-  - intros [= <- <-] x [<-|[]]. eapply op_core_nosys; exact E.
-  - intros [= <- <-] x [].
-Qed.
-
-Theorem addrxlat_op_depth_bounded n osys rcaps mem fuel opret caps a :
-  (n + 1 <= fuel)%nat ->
-  addrxlat_op (Some n) osys rcaps mem fuel opret caps a <> NoFuel /\
-  addrxlat_op (Some n) osys rcaps mem fuel opret caps a =
-  addrxlat_op (Some n) osys rcaps mem (n + 1) opret caps a.
-Proof.
-  intros H. unfold addrxlat_op. split.
-  - pose proof (depth_bounded n osys rcaps mem fuel [] caps a) as Hd.
-    destruct (op_core (Some n) osys rcaps mem fuel [] caps a); try discriminate.
-    exfalso. apply Hd; [cbn [length]; lia|reflexivity].
-  - rewrite (fuel_irrelevant n osys rcaps mem fuel (n + 1) [] caps a) by (cbn [length]; lia).
-    reflexivity.
+  intros H Hd. apply judge_exact. split; [exact Hd|].
+  pose proof (addrxlat_op_callback fmt_first fmt_next fmt_ptesz wfuel lim (Some s) rcaps mem fuel
+                (fun _ => opret) caps a st calls H) as Hcb.
+  destruct Hcb as [[-> Hs]|[x [-> ->]]].
+  - left. split; [reflexivity|]. split; [exact Hs|].
+    intros Hc.
+    rewrite (addrxlat_op_passthrough fmt_first fmt_next fmt_ptesz wfuel lim (Some s) rcaps mem fuel
+               (fun _ => opret) caps a Hc) in H.
+    discriminate.
+  - right. exists x. split; [reflexivity|]. split; [reflexivity|]. split.
+    + eapply (addrxlat_op_in_caps fmt_first fmt_next fmt_ptesz wfuel); [exact H|now left].
+    + exists fuel. split; [lia|].
+      apply (addrxlat_op_composition fmt_first fmt_next fmt_ptesz wfuel lim s rcaps mem fuel
+               (fun _ => opret) caps a opret [x] H x). now left.
 Qed.
